@@ -12,6 +12,9 @@ template, i.e. the identity, and that template is itself translated as `scalarop
   compute_final_info                the trailing `if (k == m_n - 1) {... if (akk == 0) m_info = NumericalIssue }`
   compute_prologue, compute_prologue_conditional, compute_perm_reset_args
                                     which members compute() resets before the pivot loop, unconditionally / under a condition
+  solve_inplace_flow, solve_flow, solve_inplace_cond_names, solve_inplace_params
+                                    the bodies of solve_inplace() / solve() flattened into (depth, kind, canonical text) rows from the AST alone
+                                    (loop headers, branch conditions, every statement, any continue/break/return), and the names its conditions read
   dense_set_shift_guard             DenseSymShiftSolve::set_shift : the throwing check after compute()
   symshift_factorize_ok, symshift_set_shift_guard   SymShiftInvertHelper<dense,...>::factorize return + SymShiftInvert::set_shift check
 Complex Hermitian instantiation (used by Model/BKLDLTC.lean):
@@ -362,6 +365,157 @@ def solve2_h(tu, t):
     if txt.count('[Sc α] (') != 1: raise XlateError('signature shape')
     return txt.replace('[Sc α] (', '[Sc α] (cj rl : α → α) (', 1)
 
+# ---------------------------------------------------------------- statement tables of solve_inplace / solve (control skeleton)
+# Rendered from the clang AST ALONE (node kinds, operator codes, declared names, literal values): comments, white space, line breaks,
+# redundant parentheses and implicit casts do not enter.  The only source characters read are the single identifier token of an
+# `UnresolvedMemberExpr` (a call of a member function of the dependent class: `coeff`, `diag_coeff`, ...), whose name clang's JSON omits.
+_TRANSPARENT = ('ImplicitCastExpr', 'ParenExpr', 'ExprWithCleanups', 'MaterializeTemporaryExpr', 'CXXBindTemporaryExpr', 'ConstantExpr', 'FullExpr')
+_ASSIGN_OPS = ('=', '+=', '-=', '*=', '/=', '%=', '&=', '|=', '^=', '<<=', '>>=')
+
+def _kids(n): return [c for c in (n.get('inner') or []) if isinstance(c, dict) and c.get('kind') not in ('FullComment', 'ParagraphComment', 'TextComment')]
+
+def _tok(tu, n):
+    e = n.get('range', {}).get('end', {})
+    if 'offset' not in e or 'tokLen' not in e: raise XlateError('node without a token range: ' + str(n.get('kind')))
+    src = open(astdump.os.path.join(astdump.INC, 'Spectra', tu.header)).read()
+    t = src[e['offset']: e['offset'] + e['tokLen']]
+    if not t.replace('_', 'a').isalnum(): raise XlateError('not an identifier token: ' + repr(t))
+    return t
+
+def canon(tu, n):
+    """canonical text of an expression, from the AST only"""
+    if not isinstance(n, dict) or not n.get('kind'): return ''
+    k = n['kind']; ch = _kids(n)
+    if k in _TRANSPARENT and len(ch) == 1: return canon(tu, ch[0])
+    if k == 'DeclRefExpr': return n['referencedDecl'].get('name', '?')
+    if k == 'CXXThisExpr': return 'this'
+    if k == 'MemberExpr':
+        base = canon(tu, ch[0]) if ch else 'this'
+        return n.get('name', '?') if base == 'this' else base + '.' + n.get('name', '?')
+    if k == 'CXXDependentScopeMemberExpr':
+        base = canon(tu, ch[0]) if ch else 'this'
+        return (n.get('member', '?') if base == 'this' else base + '.' + n.get('member', '?'))
+    if k == 'DependentScopeDeclRefExpr': return '::' + _tok(tu, n)
+    if k == 'UnresolvedLookupExpr': return n.get('name', '?')
+    if k == 'UnresolvedMemberExpr': return _tok(tu, n)
+    if k in ('IntegerLiteral', 'FloatingLiteral', 'StringLiteral', 'CharacterLiteral'): return str(n.get('value'))
+    if k == 'CXXBoolLiteralExpr': return 'true' if n.get('value') else 'false'
+    if k == 'CXXNullPtrLiteralExpr': return 'nullptr'
+    if k in ('BinaryOperator', 'CompoundAssignOperator') and len(ch) == 2: return '(' + canon(tu, ch[0]) + ' ' + n['opcode'] + ' ' + canon(tu, ch[1]) + ')'
+    if k == 'UnaryOperator' and len(ch) == 1: return '(' + canon(tu, ch[0]) + n['opcode'] + ')' if n.get('isPostfix') else '(' + n['opcode'] + canon(tu, ch[0]) + ')'
+    if k == 'ConditionalOperator' and len(ch) == 3: return '(' + canon(tu, ch[0]) + ' ? ' + canon(tu, ch[1]) + ' : ' + canon(tu, ch[2]) + ')'
+    if k == 'ArraySubscriptExpr' and len(ch) == 2: return canon(tu, ch[0]) + '[' + canon(tu, ch[1]) + ']'
+    if k == 'CXXOperatorCallExpr' and ch:
+        op = canon(tu, ch[0]); args = [canon(tu, c) for c in ch[1:]]
+        if op == 'operator[]' and len(args) == 2: return args[0] + '[' + args[1] + ']'
+        if op == 'operator()' and args: return args[0] + '(' + ', '.join(args[1:]) + ')'
+        if op.startswith('operator') and len(args) == 2: return '(' + args[0] + ' ' + op[len('operator'):] + ' ' + args[1] + ')'
+        if op.startswith('operator') and len(args) == 1: return '(' + op[len('operator'):] + args[0] + ')'
+        return op + '(' + ', '.join(args) + ')'
+    if k in ('CallExpr', 'CXXMemberCallExpr') and ch: return canon(tu, ch[0]) + '(' + ', '.join(canon(tu, c) for c in ch[1:]) + ')'
+    if k in ('ParenListExpr', 'InitListExpr'): return '(' + ', '.join(canon(tu, c) for c in ch) + ')'
+    if k == 'CXXThrowExpr': return 'throw ' + (canon(tu, ch[0]) if ch else '')
+    if k in ('CXXFunctionalCastExpr', 'CXXConstructExpr', 'CXXUnresolvedConstructExpr', 'CXXTemporaryObjectExpr', 'CXXStaticCastExpr', 'CStyleCastExpr', 'CXXConstCastExpr', 'CXXReinterpretCastExpr'):
+        inner = ', '.join(canon(tu, c) for c in ch)
+        if k == 'CXXConstructExpr' and len(ch) == 1: return inner            # copy/conversion construction around a single expression
+        return n.get('type', {}).get('qualType', '?') + '(' + inner + ')'
+    return k + '<' + ', '.join(canon(tu, c) for c in ch) + '>'              # anything else: still shown, by node kind
+
+def flow_rows(tu, node):
+    """flatten a function body into rows (depth, kind, text); kinds: if / else / for / while / do / switch / case / decl / assign / call / expr / continue / break /
+    return / goto / label / throw / try"""
+    rows = []
+    def stmt(n, d):
+        if not isinstance(n, dict) or not n.get('kind'): return
+        k = n['kind']; ch = _kids(n)
+        if k in ('NullStmt',): return
+        if k == 'CompoundStmt':
+            for c in ch: stmt(c, d)
+        elif k in _TRANSPARENT and len(ch) == 1: stmt(ch[0], d)
+        elif k == 'IfStmt':
+            parts = [c for c in (n.get('inner') or []) if isinstance(c, dict)]
+            if n.get('hasInit') or n.get('hasVar'): raise XlateError('if with an init statement / condition variable')
+            rows.append((d, 'if', canon(tu, parts[0]))); stmt(parts[1], d + 1)
+            if len(parts) > 2: rows.append((d, 'else', '')); stmt(parts[2], d + 1)
+        elif k == 'ForStmt':
+            parts = n.get('inner') or []
+            if len(parts) != 5: raise XlateError('for statement shape')
+            def hd(x):
+                if not isinstance(x, dict) or not x.get('kind'): return ''
+                if x['kind'] == 'DeclStmt': return ', '.join(v.get('name', '?') + ' := ' + (canon(tu, _kids(v)[0]) if _kids(v) else '') for v in _kids(x))
+                return canon(tu, x)
+            rows.append((d, 'for', hd(parts[0]) + ' ; ' + hd(parts[2]) + ' ; ' + hd(parts[3]))); stmt(parts[4], d + 1)
+        elif k == 'WhileStmt': rows.append((d, 'while', canon(tu, ch[0]))); stmt(ch[-1], d + 1)
+        elif k == 'DoStmt': rows.append((d, 'do', canon(tu, ch[-1]))); stmt(ch[0], d + 1)
+        elif k == 'CXXForRangeStmt': rows.append((d, 'for', 'range')); stmt(ch[-1], d + 1)
+        elif k == 'SwitchStmt': rows.append((d, 'switch', canon(tu, ch[0]))); stmt(ch[-1], d + 1)
+        elif k in ('CaseStmt', 'DefaultStmt'): rows.append((d, 'case', canon(tu, ch[0]) if k == 'CaseStmt' else 'default')); stmt(ch[-1], d)
+        elif k == 'BreakStmt': rows.append((d, 'break', ''))
+        elif k == 'ContinueStmt': rows.append((d, 'continue', ''))
+        elif k == 'GotoStmt': rows.append((d, 'goto', ''))
+        elif k == 'LabelStmt': rows.append((d, 'label', n.get('name', ''))); [stmt(c, d) for c in ch]
+        elif k == 'ReturnStmt': rows.append((d, 'return', canon(tu, ch[0]) if ch else ''))
+        elif k == 'CXXTryStmt': rows.append((d, 'try', '')); [stmt(c, d + 1) for c in ch]
+        elif k == 'CXXCatchStmt': rows.append((d, 'catch', '')); [stmt(c, d + 1) for c in ch]
+        elif k == 'DeclStmt':
+            for v in ch:
+                if v.get('kind') in ('UsingDecl', 'TypeAliasDecl', 'TypedefDecl', 'UsingDirectiveDecl', 'StaticAssertDecl'): continue
+                if v.get('kind') != 'VarDecl': raise XlateError('unsupported declaration ' + str(v.get('kind')))
+                rows.append((d, 'decl', v.get('name', '?') + ' := ' + (canon(tu, _kids(v)[0]) if _kids(v) else '')))
+        elif k == 'CXXThrowExpr': rows.append((d, 'throw', canon(tu, ch[0]) if ch else ''))
+        elif k in ('BinaryOperator', 'CompoundAssignOperator') and n.get('opcode') in _ASSIGN_OPS: rows.append((d, 'assign', canon(tu, n)))
+        elif k in ('CallExpr', 'CXXMemberCallExpr'): rows.append((d, 'call', canon(tu, n)))
+        elif k == 'CXXOperatorCallExpr':
+            op = canon(tu, ch[0]) if ch else ''
+            rows.append((d, 'assign' if op in tuple('operator' + o for o in _ASSIGN_OPS) else 'expr', canon(tu, n)))
+        else: rows.append((d, 'expr', canon(tu, n)))
+    body = [c for c in node.get('inner', []) if isinstance(c, dict) and c.get('kind') == 'CompoundStmt']
+    if len(body) != 1: raise XlateError('no body')
+    stmt(body[0], 0)
+    return rows
+
+def _names_in(tu, n, acc):
+    """every declared name / member / dependent member / unresolved callee an expression refers to"""
+    if not isinstance(n, dict): return acc
+    k = n.get('kind')
+    if k == 'DeclRefExpr': acc.append(n['referencedDecl'].get('name', '?'))
+    elif k == 'MemberExpr': acc.append(n.get('name', '?'))
+    elif k == 'CXXDependentScopeMemberExpr': acc.append(n.get('member', '?'))
+    elif k == 'UnresolvedLookupExpr': acc.append(n.get('name', '?'))
+    elif k in ('UnresolvedMemberExpr', 'DependentScopeDeclRefExpr'): acc.append(_tok(tu, n))
+    for c in _kids(n): _names_in(tu, c, acc)
+    return acc
+
+def _lq(x): return '"' + x.replace('\\', '\\\\').replace('"', '\\"') + '"'
+
+def solve_flow(tu, t):
+    out = []
+    for lean, path in (('solve_inplace_flow', 'BKLDLT::solve_inplace'), ('solve_flow', 'BKLDLT::solve')):
+        node = strip_d2b(tu.find(path))
+        rows = flow_rows(tu, node)
+        out.append(f'def {lean} : List (Nat × String × String) :=\n  [' + ',\n   '.join(f'({d}, {_lq(k)}, {_lq(x)})' for d, k, x in rows) + ']')
+        if lean == 'solve_inplace_flow':
+            # the names every branch / loop condition of solve_inplace reads (loop headers incl. init and increment)
+            names = []
+            def conds(n):
+                if not isinstance(n, dict): return
+                k = n.get('kind'); parts = [c for c in (n.get('inner') or [])]
+                if k == 'IfStmt': _names_in(tu, parts[0], names)
+                elif k == 'ForStmt':
+                    for x in parts[:4]: _names_in(tu, x, names)
+                elif k in ('WhileStmt', 'SwitchStmt'): _names_in(tu, parts[0], names)
+                elif k == 'DoStmt': _names_in(tu, parts[-1], names)
+                elif k == 'ConditionalOperator': _names_in(tu, parts[0], names)
+                for c in parts: conds(c)
+            conds(node)
+            uniq = sorted(set(names))
+            out.append('/-- every name read by an `if` / loop header / `?:` condition of `solve_inplace` -/\n'
+                       'def solve_inplace_cond_names : List String :=\n  [' + ', '.join(_lq(x) for x in uniq) + ']')
+            # parameters (name, by-reference?) and constness of the method
+            ps = [c for c in node.get('inner', []) if c.get('kind') == 'ParmVarDecl']
+            out.append('def solve_inplace_params : List String :=\n  [' + ', '.join(_lq(c.get('name', '?')) for c in ps) + ']')
+    return '\n\n'.join(out)
+
 BK = [
     T('scalarop_conj', 'ScalarOp::conj', H, mode='value', ret_kind='sc', ret_type='α'),
     T('scalarop_real', 'ScalarOp::real', H, mode='value', ret_kind='sc', ret_type='α'),
@@ -377,6 +531,7 @@ BK = [
     dict(lean='copy_fast_path', header=H, custom=copy_fast_path, path='BKLDLT::copy_data'),
     dict(lean='solve_inplace_2x2_h', header=H, custom=solve2_h, path='BKLDLT::solve_inplace_2x2'),
     dict(lean='ge2_status_h', header=H, custom=ge_status('2x2', CONJ_H, SCH_H, '_h'), path='BKLDLT::gaussian_elimination_2x2'),
+    dict(lean='solve_flow', header=H, custom=solve_flow, path='BKLDLT::solve_inplace / ::solve : statement tables'),
     dict(lean='dense_set_shift_guard', header='MatOp/DenseSymShiftSolve.h', custom=dense_guard, path='DenseSymShiftSolve::set_shift'),
     dict(lean='symshift_guard', header='MatOp/SymShiftInvert.h', custom=symshift_guard, path='SymShiftInvert::set_shift'),
 ]
